@@ -44,7 +44,12 @@ type Compiler struct {
 	loopStack     []loopContext
 	// names of the functions called by the code compiled since the last Reset
 	calledFunctions []string
+	// nesting of the expression being compiled (see compileExpression)
+	exprDepth int
 }
+
+// maxExpressionDepth bounds the recursion of compileExpression.
+const maxExpressionDepth = 10000
 
 // NewCompiler creates a new compiler instance
 func NewCompiler() *Compiler {
@@ -792,6 +797,15 @@ func (c *Compiler) compileSwitchStatement(stmt *ast.SwitchStatement) error {
 
 // compileExpression compiles an expression
 func (c *Compiler) compileExpression(expr ast.Expr) error {
+	// The parser builds a chain of binary operators (1 + 1 + 1 ...) with a
+	// loop, so the tree it hands over can be far deeper than its own nesting
+	// limit allows for brackets: a source of a million terms ran this
+	// recursion out of stack, which ends the whole process. Refuse instead.
+	c.exprDepth++
+	defer func() { c.exprDepth-- }()
+	if c.exprDepth > maxExpressionDepth {
+		return fmt.Errorf("expression nested too deeply (more than %d levels)", maxExpressionDepth)
+	}
 	switch e := expr.(type) {
 	case *ast.LiteralExpr:
 		return c.compileLiteral(e)
